@@ -7,7 +7,7 @@ use proptest::strategy::Strategy;
 use serde::{Deserialize, Serialize};
 use serde_json::json;
 
-pub const RULE: &str = "case = (game, depth 8-11, hash 1/2/3/16 MB, 0-2 earlier searches). The unstopped search is run once with hook H1 counting the polls of the stop flag -> N. Then for every k = 1..N (all k when N <= 24, else 1, 2, N-1, N and 12 generated indices) the search is repeated from an identically prepared state with the flag made to read true from the k-th poll on. Oracle: no panic; the move returned is in the reference legal set; the total number of polls equals k (any node examined after the stop was observed would poll again); every line reported before the stop passes the C08 oracle; the Game passed in is unchanged; a follow-up search (unstopped, depth 3-5, same state, same or successor position) passes the complete C08 oracle and returns a legal move. A second family calls the real Control::stop() from another thread after a generated delay; a third ends the search by an expired fixed move time of 0-20 ms instead of a stop request. Non-trivial = k strictly inside an iteration (not the between-iterations poll); distinct by (case, k).";
+pub const RULE: &str = "case = (game, depth 8-11, hash 1/2/3/16 MB, 0-2 earlier searches). The unstopped search is run once with hook H1 counting the polls of the stop flag -> N. Then for every k = 1..N (all k when N <= 24, else 1, 2, N-1, N and 12 generated indices) the search is repeated from an identically prepared state with the flag made to read true from the k-th poll on. Oracle: no panic; the move returned is in the reference legal set; the total number of polls equals k (any node examined after the stop was observed would poll again); every line reported before the stop passes the C08 oracle; the Game passed in is unchanged; a follow-up search (unstopped, depth 3-5, same state, same or successor position) passes the complete C08 oracle and returns a legal move. A second family calls the real Control::stop() from another thread after a generated delay; a third ends the search by an expired fixed move time of 0-20 ms instead of a stop request. A 'first_iteration' part uses capture-storm positions (4-8 queens a side) at depth 1-2, where the first poll already falls inside the first iteration, with every k. Non-trivial = k strictly inside an iteration (not the between-iterations poll); distinct by (case, k).";
 
 #[derive(Serialize, Deserialize, Clone, Debug)]
 pub enum Case {
@@ -221,9 +221,35 @@ pub fn run(run: &mut Run) -> &'static str {
             run_built(&b, Some(ks), Some(stopper_delays_us), None, st)
         }
     });
+    // stops observed before the first iteration has completed: capture-storm positions whose depth-1
+    // search alone exceeds the polling interval (the "panic move" path); depth 1-2, every k
+    let cases = tier.pick(400, 8000);
+    let strat = tape(24..80).prop_map(Case::Tape);
+    run.proptest_part("first_iteration", RULE, strat, cases, move |c: &Case, st: &mut Stats| match c {
+        Case::Tape(data) => {
+            let mut t = Tape::new(data);
+            let Some(p) = storm_theme(&mut t) else {
+                st.discard();
+                return Ok(());
+            };
+            if p.legal_moves().is_empty() {
+                st.discard();
+                return Ok(());
+            }
+            let fen = p.to_fen();
+            let main = SearchSpec { fen: fen.clone(), moves: vec![], limit: Limit::Depth(1 + t.pick(2) as u8) };
+            let followup = SearchSpec { fen, moves: vec![], limit: Limit::Depth(1) };
+            let b = Built { hash_mb: [1usize, 16][t.pick(2)], priors: vec![], main, followup };
+            run_built(&b, None, Some(&[]), Some(t), st)
+        }
+        Case::Explicit { hash_mb, priors, main, ks, followup, stopper_delays_us } => {
+            let b = Built { hash_mb: *hash_mb, priors: priors.clone(), main: main.clone(), followup: followup.clone() };
+            run_built(&b, Some(ks), Some(stopper_delays_us), None, st)
+        }
+    });
     if let Ok(bin) = std::env::var("VERIF_FAST_BIN") {
         if profile_name() == "checked" && run.only_parts.is_empty() {
-            run_sub_process(run, &bin, &["stops"]);
+            run_sub_process(run, &bin, &["stops", "first_iteration"]);
         }
     }
     RULE
